@@ -141,7 +141,45 @@ class C19(Check):
         return pipegen.PCfg(max_len=9 if deep else 6, min_len=2, expr=Cfg(max_depth=3, math=True), sub_len=2)
 
     def strategy(self, tier):
-        return pipegen.pipeline_case(self.cfg(tier))
+        from hypothesis import strategies as st
+
+        base = pipegen.pipeline_case(self.cfg(tier))
+
+        @st.composite
+        def with_tail(draw):
+            case = draw(base)
+            if draw(st.integers(0, 9)) >= 3:
+                return case
+            # compilation does not depend on the value domain: a final slice_head without an order that binds it
+            # (MSSQL has to invent one for OFFSET), possibly behind a constant first column or an arrange by a constant
+            try:
+                t = refsem.run(case).vars[case["result"]]
+            except (refsem.OutOfDomain, refsem.RefReject):
+                return case
+            if t.group or not t.visible:
+                return case
+            var, k = case["result"], 0
+
+            def add(step):
+                nonlocal var, k
+                k += 1
+                step = dict(step, out=f"{case['result']}_t{k}", **{"in": var})
+                case["steps"].append(step)
+                var = step["out"]
+
+            shape = draw(st.sampled_from(["plain", "const_first", "arrange_const"]))
+            if shape != "plain":
+                add({"verb": "mutate", "items": [["zk", ["lit", draw(st.sampled_from([1, "c", 2.5, True]))]]]})
+                if shape == "const_first":
+                    add({"verb": "select", "cols": [{"c": "zk"}] + [{"c": n} for n in t.names() if n != "zk"]})
+                else:
+                    add({"verb": "arrange", "keys": [[["col", {"c": "zk"}], draw(st.booleans()), None, 0]]})
+            add({"verb": "slice_head", "n": draw(st.integers(0, 5)), "offset": draw(st.integers(0, 3))})
+            case["result"] = var
+            case.setdefault("_gen", {}).setdefault("classes", []).append("tail:" + shape)
+            return case
+
+        return with_tail()
 
     def examine(self, case) -> Outcome:
         import pydiverse.transform as pdt
